@@ -352,6 +352,39 @@ def R5_tlv_reader(run):
               detail="length != size_of(view) => InvalidAccountData for each of the 3 views")
     oob = any(o == "Gt" and "len" in show(y) for at in A.atoms(pe) for (op, a, b) in fail_conditions(at) for (o, x, y) in ((op, a, b), (A.SWAP[op], b, a)))
     run.check("R5", "value-bounds", oob, "TLV reader no longer rejects a value that runs past the data", loc=pe.loc(), detail="value_end > len => InvalidAccountData")
+    # the walk visits every entry: Token-2022 stores extensions in initialisation order, so the reader may stop only at the end of
+    # the data or at the Uninitialized (0) terminator - never because of which extension it has just seen
+    hdr = [at for at in A.atoms(pe) if at.cond() and at.cond()[0] in ("Lt", "Gt", "Le", "Ge") and any(x[0] == "len" or (x[0] == "call" and x[1].endswith("::len")) for x in subterms(at.term))]
+    succ_ = pe.succ()
+    loops = set()
+    for at in hdr:
+        # blocks on a cycle through this test
+        fwd = cfg.reach(pe, at.block)
+        back = {b for b in fwd if at.block in cfg.reach(pe, b) and b != at.block or b == at.block}
+        if len(back) > 1:
+            loops |= {b for b in back if at.block in cfg.reach(pe, b)}
+    exits = []
+    for b in sorted(loops):
+        for x in succ_[b]:
+            if x not in loops and cfg.success_reach(pe, x):
+                exits.append(b)
+    allowed = True
+    why = []
+    by_block = {at.block: at for at in A.atoms(pe)}
+    for b in exits:
+        at = by_block.get(b)
+        if at is None:
+            allowed = False
+            why.append("block at line %s" % pe.blocks[b]["t"].get("l"))
+            continue
+        c = at.cond()
+        is_len = any(x[0] == "len" or (x[0] == "call" and x[1].endswith("::len")) for x in subterms(at.term))
+        is_zero_type = bool(c) and c[0] in ("Eq", "Ne") and (const_val(c[1]) == 0 or const_val(c[2]) == 0) and any(x[0] == "call" and x[1].endswith("from_le_bytes") for x in subterms(at.term))
+        if not (is_len or is_zero_type):
+            allowed = False
+            why.append("%s (line %s)" % (sh(at.term, 80), at.line))
+    run.check("R5", "walk-complete", bool(loops) and bool(exits) and allowed, "the TLV walk can stop early on %s; it may end only at the end of the data or at the Uninitialized terminator" % (why or "nothing found"),
+              loc=pe.loc(), detail="%d loop exit(s): end of data / type 0 only" % len(exits))
     # epoch selection
     g = facts.need_fn("pinocchio::ported::util_token::pino_get_epoch_transfer_fee")
     run.touch(g)
